@@ -974,3 +974,546 @@ Qed.
 
 Lemma cursor_at_start_length t : length (cursor_at_start t) = S (level t).
 Proof. unfold cursor_at_start. rewrite descend_length. cbn [length]. lia. Qed.
+
+(* ======================================================================== *)
+(* Part 5: where a cursor is in its tree; search cursors; compareCursors     *)
+(* ======================================================================== *)
+
+(* structural position: the top frame is a tail of the root's entries, every other
+   frame a tail of the entries of the node under the parent's current entry *)
+Fixpoint located (t : node) (c : cursor) : Prop :=
+  match c with
+  | [] => True
+  | f :: par =>
+    match par with
+    | [] => suffix f (items t)
+    | g :: _ => located t par /\
+                match g with
+                | (_, EC _ ch) :: _ => suffix f (items ch)
+                | (k, EV v) :: _ => f = [(k, EV v)]
+                | [] => f = []
+                end
+    end
+  end.
+
+Lemma located_tl t f g p : located t (f :: g :: p) -> located t (g :: p).
+Proof. cbn [located]. intros [H _]. exact H. Qed.
+
+Lemma suffix_tl {A} (x : A) f l : suffix (x :: f) l -> suffix f l.
+Proof. intros [b ->]. exists (b ++ [x]). rewrite <- app_assoc. reflexivity. Qed.
+
+Lemma refetch_located t par : par <> [] -> located t par -> located t (refetch par).
+Proof.
+  intros Hne H. destruct par as [|g p]; [contradiction|].
+  destruct g as [|[k [v|c ch]] g']; cbn [refetch located]; (split; [exact H|]); try reflexivity.
+  apply suffix_refl.
+Qed.
+
+Lemma refetch_located' t par : located t par -> located t (refetch par).
+Proof.
+  destruct par as [|g p]; [intros _; cbn [refetch located]; apply suffix_nil|].
+  apply refetch_located. discriminate.
+Qed.
+
+Lemma advance_located t c : located t c -> located t (advance c).
+Proof.
+  induction c as [|f par IH]; intros H; [exact I|].
+  destruct f as [|x [|y f'']].
+  - (* already out of bounds: the code moves the parent all the same *)
+    destruct par as [|g p]; [cbn [advance located]; apply suffix_nil|].
+    change (advance ([] :: g :: p)) with (refetch (advance (g :: p))).
+    apply refetch_located; [|apply IH, (located_tl _ _ _ _ H)].
+    cbn [advance]. destruct g as [|z [|w g'']]; try discriminate; destruct p; try discriminate; apply refetch_ne.
+  - destruct par as [|g p]; [cbn [advance located]; apply suffix_nil|].
+    change (advance ([x] :: g :: p)) with (refetch (advance (g :: p))).
+    apply refetch_located; [|apply IH, (located_tl _ _ _ _ H)].
+    cbn [advance]. destruct g as [|z [|w g'']]; try discriminate; destruct p; try discriminate; apply refetch_ne.
+  - cbn [advance]. destruct par as [|g p]; cbn [located] in *.
+    + apply (suffix_tl x), H.
+    + destruct H as [Hp Hm]. split; [exact Hp|].
+      destruct g as [|[k [v|c ch]] g']; try discriminate; [apply (suffix_tl x), Hm].
+Qed.
+
+Lemma descend_located t n : forall c, c <> [] -> located t c -> located t (descend n c).
+Proof.
+  induction n as [|n IH]; intros c Hne H; [exact H|].
+  cbn [descend]. apply IH; [apply refetch_ne | apply refetch_located; assumption].
+Qed.
+
+Lemma cursor_at_start_located t : located t (cursor_at_start t).
+Proof. unfold cursor_at_start. apply descend_located; [discriminate|]. cbn [located]. apply suffix_refl. Qed.
+
+(* ---- adding a root frame on top of a cursor of a subtree ------------------------ *)
+
+Lemma located_snoc t ch c fr k cn rest :
+  c <> [] -> located ch c -> suffix fr (items t) -> fr = (k, EC cn ch) :: rest -> located t (c ++ [fr]).
+Proof.
+  intros Hne Hc Hfr ->. induction c as [|f par IH]; [contradiction|].
+  destruct par as [|g p].
+  - cbn [app located] in *. split; [exact Hfr|exact Hc].
+  - change ((f :: g :: p) ++ [(k, EC cn ch) :: rest]) with (f :: (g :: (p ++ [(k, EC cn ch) :: rest]))).
+    cbn [located] in Hc. destruct Hc as [Hp Hm].
+    change (located t (f :: g :: p ++ [(k, EC cn ch) :: rest])) with
+      (located t (g :: p ++ [(k, EC cn ch) :: rest]) /\
+       match g with (_, EC _ ch0) :: _ => suffix f (items ch0) | (k0, EV v) :: _ => f = [(k0, EV v)] | [] => f = [] end).
+    split; [apply IH; [discriminate|exact Hp] | exact Hm].
+Qed.
+
+Lemma located_snoc_inv t c fr :
+  c <> [] -> located t (c ++ [fr]) ->
+  suffix fr (items t) /\ (forall k cn ch rest, fr = (k, EC cn ch) :: rest -> located ch c).
+Proof.
+  intros Hne. induction c as [|f par IH]; [contradiction|]. intros H.
+  destruct par as [|g p].
+  - cbn [app located] in H. destruct H as [Hfr Hm]. split; [exact Hfr|].
+    intros k cn ch rest ->. cbn [located]. exact Hm.
+  - change ((f :: g :: p) ++ [fr]) with (f :: (g :: (p ++ [fr]))) in H.
+    change (located t (f :: g :: p ++ [fr])) with
+      (located t (g :: p ++ [fr]) /\
+       match g with (_, EC _ ch0) :: _ => suffix f (items ch0) | (k0, EV v) :: _ => f = [(k0, EV v)] | [] => f = [] end) in H.
+    destruct H as [Hp Hm]. destruct (IH ltac:(discriminate) Hp) as [Hfr Hrec]. split; [exact Hfr|].
+    intros k cn ch rest E. cbn [located]. split; [apply (Hrec k cn ch rest E)|exact Hm].
+Qed.
+
+Lemma above_snoc p fr : above (p ++ [fr]) = above p ++ flat_frame (tl fr).
+Proof.
+  induction p as [|g p IH]; cbn [app above]; [rewrite app_nil_r; reflexivity|].
+  rewrite IH, app_assoc. reflexivity.
+Qed.
+
+Lemma cur_sem_snoc c fr : c <> [] -> cur_sem (c ++ [fr]) = cur_sem c ++ flat_frame (tl fr).
+Proof.
+  destruct c as [|f par]; [contradiction|]. intros _. cbn [app cur_sem]. rewrite above_snoc, app_assoc. reflexivity.
+Qed.
+
+Lemma sems_snoc c fr :
+  sems (c ++ [fr]) = map (fun s => s ++ flat_frame (tl fr)) (sems c) ++ [flat_frame fr].
+Proof.
+  induction c as [|f par IH]; cbn [app sems map above]; [rewrite app_nil_r; reflexivity|].
+  rewrite IH, above_snoc, app_assoc. reflexivity.
+Qed.
+
+Lemma stack_ok_snoc c : forall i fr, stack_ok i (c ++ [fr]) <-> stack_ok i c /\ frame_ok (i + length c) fr.
+Proof.
+  induction c as [|f par IH]; intros i fr; cbn [app stack_ok length].
+  - rewrite Nat.add_0_r. tauto.
+  - rewrite (IH (S i) fr). rewrite Nat.add_succ_r. cbn [Nat.add]. tauto.
+Qed.
+
+Lemma linked_snoc c fr :
+  c <> [] -> linked c ->
+  (forall x rest, fr = x :: rest -> exists pre, flat_item x = pre ++ flat_frame (last c [])) ->
+  linked (c ++ [fr]).
+Proof.
+  intros Hne Hl Hfr. induction c as [|f par IH]; [contradiction|].
+  destruct par as [|g p].
+  - cbn [app linked last] in *. destruct fr as [|x rest]; [exact I|]. split; [apply (Hfr x rest eq_refl)|exact I].
+  - change ((f :: g :: p) ++ [fr]) with (f :: (g :: (p ++ [fr]))).
+    assert (Hp : linked ((g :: p) ++ [fr])).
+    { apply IH; [discriminate | apply (linked_tl _ _ Hl) | exact Hfr]. }
+    cbn [linked] in Hl |- *. cbn [app] in Hp. destruct g as [|x g']; [exact Hp|].
+    destruct Hl as [Hpre _]. split; [exact Hpre|exact Hp].
+Qed.
+
+Lemma located_last t c : c <> [] -> located t c -> suffix (last c []) (items t).
+Proof.
+  induction c as [|f par IH]; [contradiction|]. intros _ H.
+  destruct par as [|g p]; [exact H|]. change (last (f :: g :: p) []) with (last (g :: p) []).
+  apply IH; [discriminate|apply (located_tl _ _ _ _ H)].
+Qed.
+
+Lemma flat_frame_app a b : flat_frame (a ++ b) = flat_frame a ++ flat_frame b.
+Proof. unfold flat_frame. rewrite map_app, concat_app. reflexivity. Qed.
+
+(* ---- the cursor built by newCursorFromSearchFn -------------------------------------- *)
+
+Definition sgo (p : key -> bool) :=
+  fix go (cs : list (key * N * node)) (i : nat) : list (list item) :=
+    match cs with
+    | [] => []
+    | e :: cs' => match i with O => at_search_rf p (snd e) | S i' => go cs' i' end
+    end.
+
+Lemma at_search_rf_Inner p cs :
+  at_search_rf p (Inner cs) =
+  skipn (N.to_nat (keep_in_bounds (search p (map ent_key cs)) (N.of_nat (length cs)))) (items (Inner cs))
+  :: sgo p cs (N.to_nat (keep_in_bounds (search p (map ent_key cs)) (N.of_nat (length cs)))).
+Proof. reflexivity. Qed.
+
+Lemma sgo_at p pre e post : sgo p (pre ++ e :: post) (length pre) = at_search_rf p (snd e).
+Proof. induction pre as [|x pre IH]; [reflexivity|]. cbn [app length sgo]. fold (sgo p). exact IH. Qed.
+
+Lemma suffix_skipn {A} n (l : list A) : suffix (skipn n l) l.
+Proof. exists (firstn n l). symmetry. apply firstn_skipn. Qed.
+
+Lemma Forall_skipn {A} (P : A -> Prop) n l : Forall P l -> Forall P (skipn n l).
+Proof.
+  intros H. rewrite Forall_forall in *. intros x Hx. apply H.
+  rewrite <- (firstn_skipn n l). apply in_or_app. right. exact Hx.
+Qed.
+
+Lemma flat_frame_leaf kvs : flat_frame (map (fun e : kv => (fst e, EV (snd e))) kvs) = kvs.
+Proof. induction kvs as [|[k v] l IH]; [reflexivity|]. cbn [map]. rewrite flat_frame_cons, IH. reflexivity. Qed.
+
+Lemma skipn_app_exact {A} (a b : list A) : skipn (length a) (a ++ b) = b.
+Proof. induction a as [|x a IH]; [reflexivity|]. cbn [length app skipn]. exact IH. Qed.
+
+Lemma cur_valid_snoc c fr : c <> [] -> cur_valid (c ++ [fr]) = cur_valid c.
+Proof. destruct c as [|f par]; [contradiction|]. reflexivity. Qed.
+
+Lemma last_snoc {A} (l : list A) x d : last (l ++ [x]) d = x.
+Proof. apply last_last. Qed.
+
+Theorem at_search_props p t :
+  mono p -> shape t = true -> ksorted (keys (flatten t)) ->
+  cursor_at_search p t <> [] /\ length (cursor_at_search p t) = S (level t)
+  /\ located t (cursor_at_search p t) /\ stack_ok 0 (cursor_at_search p t)
+  /\ linked (cursor_at_search p t) /\ pos_ok (flatten t) (cursor_at_search p t)
+  /\ cur_sem (cursor_at_search p t) = skipn (N.to_nat (ordinal_of p t)) (flatten t)
+  /\ (cur_valid (cursor_at_search p t) = true -> live (cursor_at_search p t)).
+Proof.
+  intros Hm. induction t as [kvs|cs IH] using node_ind'; intros Hsh Hso.
+  - unfold cursor_at_search. cbn [at_search_rf rev app].
+    set (j := N.to_nat (search p (map fst kvs))).
+    assert (Hff : flat_frame (skipn j (items (Leaf kvs))) = skipn j kvs).
+    { cbn [items]. rewrite skipn_map. apply flat_frame_leaf. }
+    split; [discriminate|]. split; [reflexivity|]. split; [cbn [located]; apply suffix_skipn|].
+    split; [cbn [stack_ok]; split; [apply Forall_skipn, (items_frame_ok (Leaf kvs) Hsh) | exact I]|].
+    split; [exact I|]. split; [|split].
+    + unfold pos_ok. cbn [sems above]. constructor; [|constructor]. rewrite app_nil_r, Hff. apply suffix_skipn.
+    + cbn [cur_sem above ordinal_of flatten]. rewrite app_nil_r. exact Hff.
+    + intros Hv. constructor; [|constructor]. intros E. rewrite E in Hv. discriminate.
+  - pose proof (shape_ents_ok cs Hsh) as Hok.
+    destruct (sep_keys_props cs Hok Hso) as (Hsep & Hb).
+    assert (Hne : (0 < length cs)%nat) by (destruct cs; [cbn in Hsh; discriminate | cbn; lia]).
+    set (i0 := search p (map ent_key cs)).
+    set (i := N.to_nat (keep_in_bounds i0 (N.of_nat (length cs)))).
+    assert (Hi : (i < length cs)%nat).
+    { unfold i. pose proof (keep_in_bounds_lt i0 (N.of_nat (length cs))). lia. }
+    destruct (nth_split cs (0, 0, Leaf []) Hi) as (pre & post & Ecs & Hpre).
+    set (e := nth i cs (0, 0, Leaf [])) in *.
+    assert (Hein : In e cs) by (apply nth_In; exact Hi).
+    pose proof Hok as Hok'. unfold ents_ok in Hok'. rewrite Forall_forall in Hok'.
+    destruct (Hok' e Hein) as (Hse & Hce & Hke).
+    assert (Hso' := Hso). rewrite Ecs, flatten_Inner_app in Hso'.
+    change (e :: post) with ([e] ++ post) in Hso'. rewrite flatten_Inner_app in Hso'.
+    rewrite !keys_app in Hso'. apply ksorted_app in Hso' as (Sp & Sr & _). apply ksorted_app in Sr as (Se & _ & _).
+    assert (Efe : flatten (Inner [e]) = flatten (snd e)) by (cbn [flatten map concat]; apply app_nil_r).
+    rewrite Efe in Se.
+    rewrite Forall_forall in IH. destruct (IH e Hein Hse Se) as (C1 & C2 & C3 & C4 & C5 & C6 & C7 & C8).
+    unfold ent_child in *.
+    (* the cursor is the child's cursor with the root frame on top *)
+    set (fr := (fst (fst e), EC (snd (fst e)) (snd e)) :: items (Inner post)).
+    assert (Efr : skipn i (items (Inner cs)) = fr).
+    { rewrite Ecs at 1. cbn [items]. rewrite map_app. rewrite <- Hpre, <- (map_length (fun e0 : key * N * node => (fst (fst e0), EC (snd (fst e0)) (snd e0))) pre).
+      rewrite skipn_app_exact. reflexivity. }
+    assert (Ecur : cursor_at_search p (Inner cs) = cursor_at_search p (snd e) ++ [fr]).
+    { unfold cursor_at_search. rewrite at_search_rf_Inner. fold i0. fold i. rewrite Efr. cbn [rev].
+      rewrite Ecs at 1. rewrite <- Hpre, sgo_at. reflexivity. }
+    assert (Hlev : level (Inner cs) = S (level (snd e))).
+    { cbn [shape] in Hsh. apply andb_true_iff in Hsh as [_ Hsh]. rewrite forallb_forall in Hsh.
+      specialize (Hsh e Hein). apply andb_true_iff in Hsh as [_ H4]. apply Nat.eqb_eq in H4. symmetry. exact H4. }
+    assert (Hfrsuf : suffix fr (items (Inner cs))) by (rewrite <- Efr; apply suffix_skipn).
+    assert (Hflat : flatten (Inner cs) = flatten (Inner pre) ++ flatten (snd e) ++ flatten (Inner post)).
+    { rewrite Ecs at 1. rewrite flatten_Inner_app. change (e :: post) with ([e] ++ post). rewrite flatten_Inner_app, Efe. reflexivity. }
+    assert (Htl : flat_frame (tl fr) = flatten (Inner post)) by (cbn [fr tl]; apply flat_frame_items).
+    assert (Hfrflat : flat_frame fr = flatten (snd e) ++ flatten (Inner post)).
+    { unfold fr. rewrite flat_frame_cons. unfold flat_item. cbn [snd]. rewrite flat_frame_items. reflexivity. }
+    rewrite Ecur.
+    split; [destruct (cursor_at_search p (snd e)); discriminate|].
+    split; [rewrite app_length, C2, Hlev; cbn [length]; lia|].
+    split; [apply (located_snoc _ (snd e) _ fr (fst (fst e)) (snd (fst e)) (items (Inner post)) C1 C3 Hfrsuf eq_refl)|].
+    split.
+    { apply stack_ok_snoc. split; [exact C4|]. rewrite C2. cbn [Nat.add]. rewrite <- Hlev, <- Efr.
+      apply Forall_skipn, (items_frame_ok (Inner cs) Hsh). }
+    split.
+    { apply (linked_snoc _ fr C1 C5). intros x rest E. unfold fr in E. injection E as <- _.
+      destruct (located_last _ _ C1 C3) as [b Hb']. exists (flat_frame b).
+      unfold flat_item. cbn [snd]. rewrite <- (flat_frame_items (snd e)), Hb', flat_frame_app. reflexivity. }
+    split.
+    { unfold pos_ok. rewrite sems_snoc. apply Forall_app. split.
+      - rewrite Forall_map. unfold pos_ok in C6. rewrite Forall_forall in *. intros s Hs.
+        destruct (C6 s Hs) as [b Hb']. exists (flatten (Inner pre) ++ b).
+        rewrite Hflat, Hb', <- !app_assoc. do 3 f_equal. symmetry. exact Htl.
+      - constructor; [|constructor]. exists (flatten (Inner pre)). rewrite Hflat, Hfrflat. reflexivity. }
+    split.
+    { etransitivity; [apply (cur_sem_snoc _ fr C1)|].
+      transitivity (skipn (N.to_nat (ordinal_of p (snd e))) (flatten (snd e)) ++ flatten (Inner post));
+        [f_equal; [exact C7 | exact Htl]|]. symmetry.
+      rewrite ordinal_of_Inner. fold i0. fold i. rewrite Ecs at 1. rewrite <- Hpre, ord_go_at.
+      rewrite Ecs in Hok. apply ents_ok_app in Hok as (Hokpre & _). rewrite (sum_counts_spec pre Hokpre). unfold count.
+      rewrite Hflat.
+      pose proof (ordinal_of_spec p (snd e) Hm (conj Hse Se)) as Ho.
+      pose proof (nfalse_le p (keys (flatten (snd e)))) as Hle. unfold kfalse in Ho. rewrite <- Ho in Hle.
+      unfold keys in Hle. rewrite map_length in Hle.
+      replace (N.to_nat (N.of_nat (length (flatten (Inner pre))) + ordinal_of p (snd e)))
+        with (length (flatten (Inner pre)) + N.to_nat (ordinal_of p (snd e)))%nat by lia.
+      rewrite skipn_app. rewrite skipn_all2 by lia. cbn [app].
+      replace (length (flatten (Inner pre)) + N.to_nat (ordinal_of p (snd e)) - length (flatten (Inner pre)))%nat
+        with (N.to_nat (ordinal_of p (snd e))) by lia.
+      rewrite skipn_app. assert (Hz : (N.to_nat (ordinal_of p (snd e)) - length (flatten (snd e)) = 0)%nat)
+        by (clear -Hle; unfold kv in *; lia).
+      rewrite Hz. reflexivity. }
+    intros Hv. assert (Hv' : cur_valid (cursor_at_search p (snd e)) = true).
+    { etransitivity; [symmetry; apply (cur_valid_snoc _ fr C1)|exact Hv]. }
+    clear Hv. rename Hv' into Hv. apply Forall_app. split; [apply C8, Hv|].
+    constructor; [discriminate|constructor].
+Qed.
+
+Lemma located_head_in t c :
+  c <> [] -> located t c -> forall e, In e (flat_frame (hd [] c)) -> In e (flatten t).
+Proof.
+  induction c as [|f par IH]; [contradiction|]. intros _ H e He. cbn [hd] in He.
+  destruct par as [|g p].
+  - cbn [located] in H. destruct H as [b Hb]. rewrite <- (flat_frame_items t), Hb, flat_frame_app.
+    apply in_or_app. right. exact He.
+  - cbn [located] in H. destruct H as [Hp Hm]. apply (IH ltac:(discriminate) Hp). cbn [hd].
+    destruct g as [|[k [v|cn ch]] g'].
+    + subst f. destruct He.
+    + subst f. rewrite flat_frame_cons. apply in_or_app. left. exact He.
+    + rewrite flat_frame_cons. apply in_or_app. left. unfold flat_item. cbn [snd].
+      destruct Hm as [b Hb]. rewrite <- (flat_frame_items ch), Hb, flat_frame_app. apply in_or_app. right. exact He.
+Qed.
+
+(* the key/value pair under a leaf-level cursor *)
+Definition cur_kv (c : cursor) : option kv :=
+  match cur_item c with Some (k, EV v) => Some (k, v) | _ => None end.
+
+Lemma cur_kv_head c k v : cur_kv c = Some (k, v) -> exists f' par, c = ((k, EV v) :: f') :: par.
+Proof.
+  unfold cur_kv, cur_item. destruct c as [|[|[k' [v'|cn n]] f'] par]; try discriminate.
+  intros H. injection H as -> ->. eauto.
+Qed.
+
+Lemma cur_kv_snoc c fr : c <> [] -> cur_kv (c ++ [fr]) = cur_kv c.
+Proof. destruct c as [|f par]; [contradiction|]. reflexivity. Qed.
+
+Lemma cmp_rf_cons fl l fr r :
+  cmp_rf (fl :: l) (fr :: r) =
+  (if (Z.of_nat (length fr) - Z.of_nat (length fl) =? 0)%Z then cmp_rf l r
+   else Z.of_nat (length fr) - Z.of_nat (length fl))%Z.
+Proof. reflexivity. Qed.
+
+Lemma cur_compare_snoc c fc s fs :
+  cur_compare (c ++ [fc]) (s ++ [fs]) =
+  (if (Z.of_nat (length fs) - Z.of_nat (length fc) =? 0)%Z then cur_compare c s
+   else Z.of_nat (length fs) - Z.of_nat (length fc))%Z.
+Proof. unfold cur_compare. rewrite !rev_unit. apply cmp_rf_cons. Qed.
+
+(* the decomposition of a search cursor at an internal node, with the facts about the chosen child *)
+Lemma cursor_at_search_Inner p cs :
+  mono p -> shape (Inner cs) = true -> ksorted (keys (flatten (Inner cs))) ->
+  exists pre e post,
+    cs = pre ++ e :: post
+    /\ cursor_at_search p (Inner cs)
+       = cursor_at_search p (snd e) ++ [(fst (fst e), EC (snd (fst e)) (snd e)) :: items (Inner post)]
+    /\ (forall j, (j < length pre)%nat -> p (ent_key (nth j cs (0, 0, Leaf []))) = false)
+    /\ (p (ent_key e) = true \/ post = []).
+Proof.
+  intros Hm Hsh Hso. pose proof (shape_ents_ok cs Hsh) as Hok.
+  destruct (sep_keys_props cs Hok Hso) as (Hsep & Hb).
+  destruct (search_props p (map ent_key cs) Hm Hsep) as (Hle & Hlo & Hhi). rewrite map_length in *.
+  assert (Hne : (0 < length cs)%nat) by (destruct cs; [cbn in Hsh; discriminate | cbn; lia]).
+  set (i0 := search p (map ent_key cs)) in *.
+  set (i := N.to_nat (keep_in_bounds i0 (N.of_nat (length cs)))).
+  assert (Hi : (i < length cs)%nat).
+  { unfold i. pose proof (keep_in_bounds_lt i0 (N.of_nat (length cs))). lia. }
+  destruct (nth_split cs (0, 0, Leaf []) Hi) as (pre & post & Ecs & Hpre).
+  set (e := nth i cs (0, 0, Leaf [])) in *.
+  exists pre, e, post. split; [exact Ecs|]. split; [|split].
+  - assert (Efr : skipn i (items (Inner cs)) = (fst (fst e), EC (snd (fst e)) (snd e)) :: items (Inner post)).
+    { rewrite Ecs at 1. cbn [items]. rewrite map_app.
+      rewrite <- Hpre, <- (map_length (fun e0 : key * N * node => (fst (fst e0), EC (snd (fst e0)) (snd e0))) pre).
+      rewrite skipn_app_exact. reflexivity. }
+    unfold cursor_at_search. rewrite at_search_rf_Inner. fold i0. fold i. rewrite Efr. cbn [rev].
+    rewrite Ecs at 1. rewrite <- Hpre, sgo_at. reflexivity.
+  - intros j Hj. change 0 with (ent_key (0, 0, Leaf [])) in Hlo. specialize (Hlo j). rewrite map_nth in Hlo. apply Hlo.
+    unfold i, keep_in_bounds in Hpre. destruct (N.of_nat (length cs) <=? i0) eqn:Eb; [apply N.leb_le in Eb|]; lia.
+  - unfold i, keep_in_bounds in Hpre, Hi. destruct (N.of_nat (length cs) <=? i0) eqn:Eb.
+    + right. apply N.leb_le in Eb.
+      assert (length cs = (length pre + S (length post))%nat) by (rewrite Ecs at 1; rewrite app_length; reflexivity).
+      destruct post; [reflexivity|]. cbn [length] in *. lia.
+    + left. apply N.leb_gt in Eb. change 0 with (ent_key (0, 0, Leaf [])) in Hhi. specialize (Hhi i). rewrite map_nth in Hhi.
+      apply Hhi. unfold i, keep_in_bounds. rewrite (proj2 (N.leb_gt _ _) Eb). lia.
+Qed.
+
+Lemma nth_map_fst_items_leaf kvs (b f' : list item) k v :
+  items (Leaf kvs) = b ++ (k, EV v) :: f' -> nth (length b) (map fst kvs) 0 = k.
+Proof.
+  intros E. assert (Hm : map fst kvs = map fst (items (Leaf kvs))).
+  { cbn [items]. rewrite map_map. apply map_ext. reflexivity. }
+  rewrite Hm, E, map_app. rewrite app_nth2 by (rewrite map_length; lia).
+  rewrite map_length, Nat.sub_diag. reflexivity.
+Qed.
+
+Lemma zsign_lt (a b : nat) :
+  ((if (Z.of_nat a - Z.of_nat b =? 0)%Z then 0 else Z.of_nat a - Z.of_nat b) <? 0)%Z = (a <? b)%nat.
+Proof.
+  destruct (Z.of_nat a - Z.of_nat b =? 0)%Z eqn:E.
+  - apply Z.eqb_eq in E. symmetry. apply Nat.ltb_ge. lia.
+  - apply Z.eqb_neq in E. destruct (a <? b)%nat eqn:E2.
+    + apply Nat.ltb_lt in E2. apply Z.ltb_lt. lia.
+    + apply Nat.ltb_ge in E2. apply Z.ltb_ge. lia.
+Qed.
+
+Lemma zsign_lt' (a b : nat) (z : Z) :
+  ((if (Z.of_nat a - Z.of_nat b =? 0)%Z then z else Z.of_nat a - Z.of_nat b) <? 0)%Z =
+  if (a =? b)%nat then (z <? 0)%Z else (a <? b)%nat.
+Proof.
+  destruct (a =? b)%nat eqn:E.
+  - apply Nat.eqb_eq in E. subst b. rewrite Z.sub_diag. reflexivity.
+  - apply Nat.eqb_neq in E. replace (Z.of_nat a - Z.of_nat b =? 0)%Z with false by (symmetry; apply Z.eqb_neq; lia).
+    destruct (a <? b)%nat eqn:E2.
+    + apply Nat.ltb_lt in E2. apply Z.ltb_lt. lia.
+    + apply Nat.ltb_ge in E2. apply Z.ltb_ge. lia.
+Qed.
+
+(* compareCursors(cur, stop) for a stop cursor built by a search: the cursor is before the stop
+   exactly when its key does not yet satisfy the stop predicate *)
+Theorem cmp_search p : mono p -> forall t,
+  shape t = true -> ksorted (keys (flatten t)) ->
+  forall c k v, located t c -> length c = S (level t) -> live c -> stack_ok 0 c ->
+    cur_kv c = Some (k, v) ->
+    (cur_compare c (cursor_at_search p t) <? 0)%Z = negb (p k).
+Proof.
+  intros Hm. induction t as [kvs|cs IH] using node_ind'; intros Hsh Hso c k v Hloc Hlen Hlive Hso0 Hkv.
+  - (* leaf *)
+    destruct (cur_kv_head _ _ _ Hkv) as (f' & par & ->). cbn [length level] in Hlen.
+    destruct par as [|? ?]; [|cbn in Hlen; lia].
+    cbn [located] in Hloc. destruct Hloc as [b Hb].
+    unfold cursor_at_search. cbn [at_search_rf rev app]. unfold cur_compare. cbn [rev app]. rewrite cmp_rf_cons.
+    cbn [cmp_rf]. rewrite skipn_length.
+    assert (Hn : length (items (Leaf kvs)) = length kvs) by (cbn [items]; apply map_length).
+    assert (Hn2 : length kvs = (length b + S (length f'))%nat).
+    { rewrite <- Hn, Hb, app_length. reflexivity. }
+    cbn [flatten] in Hso. unfold keys in Hso.
+    destruct (search_props p (map fst kvs) Hm Hso) as (Hle & Hlo & Hhi). rewrite map_length in *.
+    pose proof (nth_map_fst_items_leaf kvs b f' k v Hb) as Hk.
+    set (j := N.to_nat (search p (map fst kvs))) in *. rewrite Hn. rewrite zsign_lt.
+    unfold item, kv in *. cbn [length].
+    destruct (Nat.lt_ge_cases (length b) j) as [Hlt|Hge].
+    + rewrite <- Hk, (Hlo (length b) Hlt). cbn [negb]. apply Nat.ltb_lt. lia.
+    + rewrite <- Hk, (Hhi (length b)) by lia. cbn [negb]. apply Nat.ltb_ge. lia.
+  - (* internal node *)
+    destruct (cursor_at_search_Inner p cs Hm Hsh Hso) as (pre & e & post & Ecs & Ecur & Hlo & Hhi).
+    pose proof (shape_ents_ok cs Hsh) as Hok.
+    destruct (sep_keys_props cs Hok Hso) as (Hsep & Hb).
+    assert (Hein : In e cs) by (rewrite Ecs; apply in_or_app; right; left; reflexivity).
+    pose proof Hok as Hok'. unfold ents_ok in Hok'. rewrite Forall_forall in Hok'.
+    destruct (Hok' e Hein) as (Hse & Hce & Hke).
+    assert (Hlev : forall x, In x cs -> level (Inner cs) = S (level (snd x))).
+    { intros x Hx. cbn [shape] in Hsh. apply andb_true_iff in Hsh as [_ Hsh']. rewrite forallb_forall in Hsh'.
+      specialize (Hsh' x Hx). apply andb_true_iff in Hsh' as [_ H4]. apply Nat.eqb_eq in H4. symmetry. exact H4. }
+    (* the cursor: its root frame and the cursor below it *)
+    assert (Hc2 : (2 <= length c)%nat) by (rewrite Hlen, (Hlev e Hein); lia).
+    destruct (@exists_last _ c) as (c' & fc & ->); [destruct c; [cbn in Hc2; lia|discriminate]|].
+    assert (Hc'ne : c' <> []) by (destruct c'; [cbn in Hc2; lia|discriminate]).
+    rewrite app_length in Hlen. cbn [length] in Hlen.
+    destruct (located_snoc_inv _ _ _ Hc'ne Hloc) as (Hfcsuf & Hbelow).
+    apply Forall_app in Hlive as [Hlive' Hfc]. assert (Hfcne : fc <> []) by (inversion Hfc; assumption).
+    apply stack_ok_snoc in Hso0 as [Hso' Hfok]. cbn [Nat.add] in Hfok.
+    destruct fc as [|x fcr]; [contradiction|]. assert (Hx : item_ok (length c') x) by (inversion Hfok; assumption).
+    destruct x as [K [vv|cn ch]].
+    { unfold item_ok in Hx. cbn [snd] in Hx. destruct c'; [contradiction|discriminate]. }
+    specialize (Hbelow K cn ch fcr eq_refl).
+    destruct Hfcsuf as [bb Hbb].
+    assert (Hnth : nth (length bb) cs (0, 0, Leaf []) = nth (length bb) cs (0, 0, Leaf []) /\
+                   snd (nth (length bb) cs (0, 0, Leaf [])) = ch /\ (length bb < length cs)%nat).
+    { split; [reflexivity|].
+      assert (Hl : length (items (Inner cs)) = length cs) by (cbn [items]; apply map_length).
+      assert (Hlt : (length bb < length cs)%nat) by (rewrite <- Hl, Hbb, app_length; cbn [length]; lia).
+      split; [|exact Hlt].
+      assert (Hn : nth (length bb) (items (Inner cs)) (0, EC 0 (Leaf [])) = (K, EC cn ch)).
+      { rewrite Hbb, app_nth2 by lia. rewrite Nat.sub_diag. reflexivity. }
+      cbn [items] in Hn.
+      change (0, EC 0 (Leaf [])) with ((fun e0 : key * N * node => (fst (fst e0), EC (snd (fst e0)) (snd e0))) (0, 0, Leaf [])) in Hn.
+      rewrite map_nth in Hn. injection Hn as _ _ Hn. exact Hn. }
+    destruct Hnth as (_ & Hch & Hidx).
+    set (idx := length bb) in *.
+    assert (Hxin : In (nth idx cs (0, 0, Leaf [])) cs) by (apply nth_In; exact Hidx).
+    (* the key under the cursor lies in the subtree ch *)
+    assert (Hkin : In k (keys (flatten ch))).
+    { rewrite (cur_kv_snoc _ _ Hc'ne) in Hkv. destruct (cur_kv_head _ _ _ Hkv) as (f' & par & Ec').
+      apply in_map_iff. exists (k, v). split; [reflexivity|].
+      apply (located_head_in ch c' Hc'ne Hbelow). rewrite Ec'. cbn [hd]. rewrite flat_frame_cons. left. reflexivity. }
+    rewrite Ecur, cur_compare_snoc, zsign_lt'.
+    match goal with |- context [Nat.eqb ?a ?b] => set (lfs := a) in *; set (lfc := b) in * end.
+    assert (Hlfs : lfs = S (length post)) by (unfold lfs; cbn [length items]; rewrite map_length; reflexivity).
+    assert (Hlit : length (items (Inner cs)) = length cs) by (cbn [items]; apply map_length).
+    assert (Hrel : (length cs = idx + lfc)%nat).
+    { rewrite <- Hlit, Hbb, app_length. reflexivity. }
+    assert (Hlcs : length cs = (length pre + S (length post))%nat) by (rewrite Ecs, app_length; reflexivity).
+    rewrite Hlfs. clearbody lfc. clear lfs Hlfs.
+    destruct (Nat.lt_trichotomy idx (length pre)) as [Hlt|[Heq|Hgt]].
+    + (* the cursor is in an earlier subtree *)
+      assert (Hpk : p k = false).
+      { apply (mono_false p k (ent_key (nth idx cs (0, 0, Leaf []))) Hm); [|apply Hlo, Hlt].
+        rewrite Forall_forall in Hb. destruct (Hb _ Hxin) as (_ & Hkle). apply Hkle. rewrite Hch. exact Hkin. }
+      rewrite Hpk. cbn [negb].
+      replace (S (length post) =? lfc)%nat with false by (symmetry; apply Nat.eqb_neq; lia).
+      apply Nat.ltb_lt. lia.
+    + (* same subtree: decided below *)
+      assert (Ee : nth idx cs (0, 0, Leaf []) = e).
+      { rewrite Heq, Ecs, app_nth2 by lia. rewrite Nat.sub_diag. reflexivity. }
+      replace (S (length post) =? lfc)%nat with true by (symmetry; apply Nat.eqb_eq; lia).
+      rewrite Ee in Hch. subst ch.
+      rewrite (cur_kv_snoc _ _ Hc'ne) in Hkv.
+      assert (Se : ksorted (keys (flatten (snd e)))).
+      { rewrite Forall_forall in Hb. apply (Hb e Hein). }
+      rewrite Forall_forall in IH. apply (IH e Hein Hse Se c' k v Hbelow); try assumption.
+      rewrite (Hlev e Hein) in Hlen. unfold ent_child. lia.
+    + (* a later subtree: the stop entry is not clamped, every key there is past it *)
+      destruct Hhi as [Hpe|Hpost]; [|subst post; cbn [length] in *; lia].
+      assert (Hpk : p k = true).
+      { apply (Hm (ent_key e) k); [|exact Hpe].
+        assert (Hsq := Hso). rewrite Ecs, flatten_Inner_app in Hsq.
+        change (e :: post) with ([e] ++ post) in Hsq. rewrite flatten_Inner_app in Hsq.
+        rewrite !keys_app in Hsq. apply ksorted_app in Hsq as (_ & Sr & _). apply ksorted_app in Sr as (_ & _ & Sepo).
+        assert (ent_key e < k); [|lia]. apply Sepo.
+        - cbn [flatten map concat]. rewrite app_nil_r. rewrite Hke. apply tree_last_key_in, Hse.
+        - apply in_flatten_Inner. exists (nth idx cs (0, 0, Leaf [])). split; [|rewrite Hch; exact Hkin].
+          rewrite Ecs. rewrite app_nth2 by lia.
+          replace (idx - length pre)%nat with (S (idx - length pre - 1)) by lia. cbn [nth].
+          apply nth_In. lia. }
+      rewrite Hpk. cbn [negb].
+      replace (S (length post) =? lfc)%nat with false by (symmetry; apply Nat.eqb_neq; lia).
+      apply Nat.ltb_ge. lia.
+Qed.
+
+(* a search cursor that is not Valid has nothing ahead of it (it is past every entry) *)
+Lemma nfalse_lt_of_true p l k : In k l -> p k = true -> nfalse p l < N.of_nat (length l).
+Proof.
+  intros Hin Hp. pose proof (nfalse_le p l) as Hle.
+  destruct (N.eq_dec (nfalse p l) (N.of_nat (length l))) as [E|E]; [|lia].
+  rewrite (nfalse_full p l E k Hin) in Hp. discriminate.
+Qed.
+
+Lemma at_search_invalid_sem p t :
+  mono p -> shape t = true -> ksorted (keys (flatten t)) ->
+  cur_valid (cursor_at_search p t) = false -> cur_sem (cursor_at_search p t) = [].
+Proof.
+  intros Hm. induction t as [kvs|cs IH] using node_ind'; intros Hsh Hso Hv.
+  - unfold cursor_at_search in *. cbn [at_search_rf rev app cur_valid cur_sem above] in *.
+    destruct (skipn (N.to_nat (search p (map fst kvs))) (items (Leaf kvs))); [reflexivity|discriminate].
+  - destruct (cursor_at_search_Inner p cs Hm Hsh Hso) as (pre & e & post & Ecs & Ecur & _ & Hhi).
+    pose proof (shape_ents_ok cs Hsh) as Hok.
+    destruct (sep_keys_props cs Hok Hso) as (_ & Hb).
+    assert (Hein : In e cs) by (rewrite Ecs; apply in_or_app; right; left; reflexivity).
+    unfold ents_ok in Hok. rewrite Forall_forall in Hok, Hb, IH.
+    destruct (Hok e Hein) as (Hse & _ & Hke). destruct (Hb e Hein) as (Se & _).
+    destruct (at_search_props p (snd e) Hm Hse Se) as (C1 & _ & _ & _ & _ & _ & C7 & _).
+    match type of Ecur with _ = _ ++ [?x] => set (fr := x) in * end.
+    rewrite Ecur in Hv |- *.
+    assert (Hv' : cur_valid (cursor_at_search p (snd e)) = false).
+    { etransitivity; [symmetry; apply (cur_valid_snoc _ fr C1)|exact Hv]. }
+    etransitivity; [apply (cur_sem_snoc _ fr C1)|].
+    pose proof (IH e Hein Hse Se Hv') as Hnil. unfold ent_child in Hnil. rewrite Hnil. cbn [app tl fr].
+    destruct Hhi as [Hpe | Hpost]; [|subst post; reflexivity].
+    exfalso. rewrite C7 in Hnil.
+    pose proof (ordinal_of_spec p (snd e) Hm (conj Hse Se)) as Ho. unfold kfalse in Ho.
+    assert (Hlt : nfalse p (keys (flatten (snd e))) < N.of_nat (length (keys (flatten (snd e))))).
+    { apply (nfalse_lt_of_true p _ (ent_key e)); [|exact Hpe]. rewrite Hke. apply tree_last_key_in, Hse. }
+    unfold keys in Hlt at 2. rewrite map_length in Hlt. rewrite <- Ho in Hlt.
+    assert (Hlen : length (skipn (N.to_nat (ordinal_of p (snd e))) (flatten (snd e))) = 0%nat) by (rewrite Hnil; reflexivity).
+    rewrite skipn_length in Hlen. unfold kv in *. lia.
+Qed.
